@@ -119,6 +119,49 @@ def follow(P, R, f, before, reads):
                 okb = True
                 R.ob('C16.TAB.1', ret, s, 'inside an object a closing brace ends the last entry and is left for the enclosing object', key='follow:brace')
     R.ob('C16.TAB.1', okb, last, 'the documented grammar lets the last entry of an object be followed directly by "}" whatever its kind', key='follow:brace-any-kind')
+    # sibling agreement: a bare comma list ends (un-reads and leaves its loop) on exactly the characters the entry's own
+    # terminator test accepts afterwards - a character more is a syntax error reported later, a character less makes a
+    # documented layout (`tags a, b }`) unparsable
+    if lj:
+        FOLLOW = {c for c in rejected_not if isinstance(c, int) and c != 0} | {ord('}')}
+
+        def on_event(st, s):
+            if s.ev['k'] == 'store' and is_var(s.ev.get('lhs'), chv):
+                return frozenset()
+            return st
+
+        def on_edge(st, e):
+            r = rules.edge_rel(e)
+            if r and is_var(r[0], chv) and r[1] == '==' and isinstance(const_of(r[2]), int):
+                return frozenset([const_of(r[2])])
+            return st
+        bef, _, _, _ = f.forward(frozenset(), on_event, on_edge)
+        union = set()
+        nsites = 0
+        for s in f.stores():
+            if not (s.ev['k'] == 'store' and s.ev.get('op') == '--' and is_field(s.ev.get('lhs'), 'curr')):
+                continue
+            if s.bid not in f.reach([e.dst for e in f.out[s.bid]]) and not any(s.bid in f.reach([e.dst]) for b in f.reach([s.bid]) for e in f.out[b] if False):
+                # not on a cycle itself: it may still sit on the exit path of a loop (break) - take the branch condition's loop
+                heads = [e.src for e in f.dominating_edges(s.bid) if e.src in f.reach([e.dst for e in f.out[e.src]])]
+                if not heads:
+                    continue
+            T = set()
+            for st in bef.get(s.key, set()):
+                T |= set(st)
+            if not T or s.line > last.line:
+                continue
+            # un-reads followed by another read of the same token stream inside the loop are look-ahead, not the end of the list
+            leaves = f.path_avoiding(s, lambda t: t.ev['k'] == 'store' and is_var(t.ev.get('lhs'), chv) and t.key != last.key, target=last.bid) is not None
+            if not leaves:
+                continue
+            nsites += 1
+            union |= T
+            R.ob('C16.TAB.1', T <= FOLLOW, s, 'a bare list ends only on a character the entry accepts as its terminator (ends on %s, entry accepts %s)' %
+                 (sorted(repr(chr(c)) for c in T), sorted(repr(chr(c)) for c in FOLLOW)), key='follow:list-subset')
+        if nsites:
+            R.ob('C16.TAB.1', union >= FOLLOW, last, 'a bare list can be followed by every terminator of an entry (list ends on %s, entry accepts %s)' %
+                 (sorted(repr(chr(c)) for c in union), sorted(repr(chr(c)) for c in FOLLOW)), key='follow:list-covers')
     R.floor('C16.TAB.1', 4)
 
 
@@ -525,4 +568,9 @@ def run(P, R, tier):
     c15.removal_guard(P, Remap(R, {'C15.GRD.2': 'C16.GRD.4', 'C15.GRD.3': 'C16.GRD.4'}))
     # a file that is read is applied: the tree afterwards is the one written in the file
     c15.load_merges(P, Remap(R, {'C15.MPT.3': 'C16.MPT.2', 'C15.WMC.1': 'C16.MPT.2'}))
+    # the text parsed is the file's text: the terminator goes behind the last byte read, not onto it
+    from . import c14
+    c14.bounds(P, Remap(R, {'C14.BND.1': 'C16.BND.2'}))
+    # which characters make a bare word is read from the class table with the byte itself as the index
+    c14.ctype_subscripts(P, R, 'C16.BND.3')
     return EXPLANATION, ASSUMPTIONS
